@@ -199,15 +199,15 @@ def _work_isolated(args):
 
 TIERS = {
     # property: (quick_runs, thorough_runs, chunk, per-run timeout s, quick wall cap s, thorough wall cap s)
-    'C01': (2400, 40000, 20, 60, 100, 1200),
-    'C03': (2400, 40000, 20, 60, 100, 1200),
-    'C06': (1600, 30000, 10, 90, 100, 1200),
+    'C01': (4000, 48000, 20, 60, 110, 1200),
+    'C03': (3200, 40000, 20, 60, 110, 1200),
+    'C06': (3000, 40000, 10, 90, 110, 1200),
     'C07': (6000, 120000, 100, 30, 60, 600),
     'C12': (6000, 100000, 100, 30, 60, 600),
     'C13': (8000, 150000, 200, 30, 60, 600),
     'C14': (8000, 150000, 200, 30, 45, 400),
     'C15': (8000, 150000, 200, 30, 45, 400),
-    'C16': (1200, 24000, 10, 120, 100, 1200),
+    'C16': (1600, 24000, 10, 120, 110, 1200),
 }
 
 
